@@ -301,6 +301,110 @@ Definition rpci_spec_ok (c : rpci_case) : bool :=
   rpc_spec_rows (ri_strict c) [] (map is_step (ri_steps c)) &&
   forallb (fun s => Bool.eqb (is_ran s) (rs_code (is_step s) =? 0)) (ri_steps c).
 
+(* ------------------------------------------------------------------ JWT routes through the engine *)
+Record erow := mker { er_group : nat; er_tok : N; er_status : Z; er_ran : bool }.
+
+Record ejwt_case := mkej {
+  ej_groups : list jwt_opt;              (* route options per group, in registration order *)
+  ej_panics : list bool;                 (* observed: applying the option panicked *)
+  ej_table : jtable;
+  ej_rows : list erow
+}.
+
+Fixpoint upd_nth {A} (i : nat) (x : A) (l : list A) : list A :=
+  match l, i with
+  | [], _ => []
+  | _ :: r, O => x :: r
+  | a :: r, S j => a :: upd_nth j x r
+  end.
+
+Fixpoint ejwt_rows (t : jtable) (groups : list jwt_opt) (states : list pstate) (rows : list erow) : bool :=
+  match rows with
+  | [] => true
+  | r :: rest =>
+      match nth_error groups (er_group r), nth_error states (er_group r) with
+      | Some o, Some p =>
+          match jwt_setting o with
+          | None => false                      (* no route was registered for a panicking option *)
+          | Some setting =>
+              let '(p', out) := engine_jwt_gate (jwt_of t 0) setting 0 p (er_tok r) in
+              (j_status out =? er_status r) && Bool.eqb (j_ran out) (er_ran r) &&
+              ejwt_rows t groups (upd_nth (er_group r) p' states) rest
+          end
+      | _, _ => false
+      end
+  end.
+
+Definition ejwt_model_ok (c : ejwt_case) : bool :=
+  list_eqb Bool.eqb (ej_panics c) (map (fun o => match jwt_setting o with None => true | Some _ => false end) (ej_groups c)) &&
+  ejwt_rows (ej_table c) (ej_groups c) (map (fun _ => new_parser 0 C04_Gen.claimHistoryResetDuration) (ej_groups c)) (ej_rows c).
+
+(* Spec: a JWT-protected group runs its handler iff the token verifies under the group's current secret, or under its
+   (non-empty, arbitrarily short) previous secret; an unprotected group always runs it *)
+Definition ejwt_spec_ok (c : ejwt_case) : bool :=
+  forallb (fun r =>
+    match nth_error (ej_groups c) (er_group r) with
+    | Some JNone => er_ran r
+    | Some (JJwt secret _) =>
+        let adm := jwt_accept (jwt_ok_of (ej_table c) 0) secret 0%N (er_tok r) in
+        Bool.eqb (er_ran r) adm && (adm || (er_status r =? 401))
+    | Some (JTransition secret _ prev _) =>
+        let adm := jwt_accept (jwt_ok_of (ej_table c) 0) secret prev (er_tok r) in
+        Bool.eqb (er_ran r) adm && (adm || (er_status r =? 401))
+    | None => false
+    end) (ej_rows c).
+
+(* ------------------------------------------------------------------ RPC histories with floods of unknown apps *)
+Inductive rop :=
+| OCall (s : rstep)
+| OFlood (n : N) (app0 token : N) (store : list (N * N)) (code : Z).
+  (* n calls for the fresh apps app0, app0+1, ... (no stored token, healthy store), all observed with this code *)
+
+Record rpcf_case := mkrf { rf_strict : bool; rf_ops : list rop }.
+
+Definition flood_step (strict : bool) (store : list (N * N)) (token : N) (code : Z) (st : list (N * N) * bool * N) :=
+  let '(cache, ok, app) := st in
+  let '(cache', c) := authenticate strict cache
+                        (fun a => match alookup N.eqb a store with Some t => SVal t | None => SNil end)
+                        (Some ([app], [token])) in
+  (cache', ok && (c =? code), (app + 1)%N).
+
+Fixpoint rpcf_rows (strict : bool) (cache : list (N * N)) (ops : list rop) : bool :=
+  match ops with
+  | [] => true
+  | OCall s :: r =>
+      let '(cache', code) := authenticate strict cache (store_of s) (rs_md s) in
+      (code =? rs_code s) && rpcf_rows strict cache' r
+  | OFlood n app0 token store code :: r =>
+      let '(cache', ok, _) := N.iter n (flood_step strict store token code) (cache, true, app0) in
+      ok && rpcf_rows strict cache' r
+  end.
+
+Definition rpcf_model_ok (c : rpcf_case) : bool := rpcf_rows (rf_strict c) [] (rf_ops c).
+
+Definition flood_spec_step (strict : bool) (store : list (N * N)) (token : N) (code : Z) (st : list (N * N) * bool * N) :=
+  let '(memo, ok, app) := st in
+  let stv := match alookup N.eqb app store with Some t => StTok t | None => StNone end in
+  (rpc_memo memo stv app, ok && Bool.eqb (code =? 0) (rpc_accept strict true (rpc_view memo stv app) token), (app + 1)%N).
+
+Fixpoint rpcf_spec_rows (strict : bool) (memo : list (N * N)) (ops : list rop) : bool :=
+  match ops with
+  | [] => true
+  | OCall s :: r =>
+      match creds (rs_md s) with
+      | None => negb (rs_code s =? 0) && rpcf_spec_rows strict memo r
+      | Some (app, token) =>
+          let st := stored_of s app in
+          Bool.eqb (rs_code s =? 0) (rpc_accept strict true (rpc_view memo st app) token) &&
+          rpcf_spec_rows strict (rpc_memo memo st app) r
+      end
+  | OFlood n app0 token store code :: r =>
+      let '(memo', ok, _) := N.iter n (flood_spec_step strict store token code) (memo, true, app0) in
+      ok && rpcf_spec_rows strict memo' r
+  end.
+
+Definition rpcf_spec_ok (c : rpcf_case) : bool := rpcf_spec_rows (rf_strict c) [] (rf_ops c).
+
 (* ------------------------------------------------------------------ dispatch *)
 Inductive case :=
 | CParser (c : parser_case)
@@ -308,7 +412,9 @@ Inductive case :=
 | CSig (c : sig_case)
 | CRpc (c : rpc_case)
 | CGrp (c : grp_case)
-| CRpcI (c : rpci_case).
+| CRpcI (c : rpci_case)
+| CEJwt (c : ejwt_case)
+| CRpcF (c : rpcf_case).
 
 Definition model_ok (c : case) : bool :=
   match c with
@@ -318,6 +424,8 @@ Definition model_ok (c : case) : bool :=
   | CRpc c => rpc_model_ok c
   | CGrp c => grp_model_ok c
   | CRpcI c => rpci_model_ok c
+  | CEJwt c => ejwt_model_ok c
+  | CRpcF c => rpcf_model_ok c
   end.
 
 Definition spec_ok (c : case) : bool :=
@@ -328,4 +436,6 @@ Definition spec_ok (c : case) : bool :=
   | CRpc c => rpc_spec_ok c
   | CGrp c => grp_spec_ok c
   | CRpcI c => rpci_spec_ok c
+  | CEJwt c => ejwt_spec_ok c
+  | CRpcF c => rpcf_spec_ok c
   end.
